@@ -211,6 +211,9 @@ where
             };
         }
 
+        // Refuse a rumor without an id before anything is written for it
+        let rumor_event_id = rumor_event.id.ok_or(Error::MissingRumorEventId)?;
+
         let welcome_preview = self.preview_welcome(wrapper_event_id, rumor_event)?;
 
         // Create a pending group
@@ -278,8 +281,6 @@ where
             state: welcome_types::ProcessedWelcomeState::Processed,
             failure_reason: None,
         };
-
-        let rumor_event_id = rumor_event.id.ok_or(Error::MissingRumorEventId)?;
 
         let welcome = welcome_types::Welcome {
             id: rumor_event_id,
